@@ -43,6 +43,8 @@ TRIG = {
     "directive_comments": "```{note}\n:class: x # c\n\nb\n```\n",
     "directive_unknown": "```{nodir}\ncontent\n```\n",
     "role_unknown": "{norole}`x`\n",
+    "role_in_heading": "## Head {norole}`x` tail\n\nunder head\n",
+    "attr_in_heading": "## Pic ![a](b){width=1x} title\n",
     "xref_missing": "[txt](#nope)\n",
     "xref_missing_empty": "[](#nope2)\n",
     "inv_retrieval": "[](inv:#zzz)\n",
@@ -57,7 +59,7 @@ TRIG = {
 EXPECT = {
     "not_supported": {"myst.not_supported"}, "duplicate_def": {"myst.duplicate_def"}, "header": {"myst.header"},
     "directive_parse": {"myst.directive_parse"}, "directive_option": {"myst.directive_option"}, "directive_comments": {"myst.directive_comments"},
-    "directive_unknown": {"myst.directive_unknown"}, "role_unknown": {"myst.role_unknown"}, "xref_missing": {"myst.xref_missing"},
+    "directive_unknown": {"myst.directive_unknown"}, "role_unknown": {"myst.role_unknown"}, "role_in_heading": {"myst.role_unknown"}, "attr_in_heading": {"myst.attribute"}, "xref_missing": {"myst.xref_missing"},
     "xref_missing_empty": {"myst.xref_missing"},
     "inv_retrieval": {"myst.inv_retrieval", "myst.iref_missing"}, "iref_ambiguous": {"myst.iref_ambiguous", "myst.inv_retrieval"},
     "strikethrough": {"myst.strikethrough"}, "html": {"myst.html"},
